@@ -298,7 +298,30 @@ def leak_case():
     return {"kw": [["x"], ["x"], ["x"], []]}, seen
 
 
-SPECIAL = [("lambdas-in-one-class-body", lambdas_case), ("one-factory-different-keyword-only-names", factory_case),
+def same_class_name_case():
+    """Two unrelated definitions reuse one class name and one method name; the methods share their positional
+    parameters and differ in keyword-only / ** parameters.  Each machine binds by its own method's signature."""
+    from statemachine import State, StateMachine
+    uid = next(_uid)
+    src_a = (f"class Order{uid}(StateMachine):\n    new = State(initial=True)\n    paid = State(final=True)\n    pay = new.to(paid)\n"
+             "    def on_pay(self, amount, **extra):\n        self.__dict__.setdefault('seen', []).append((amount, sorted(k for k in extra if k in ('currency', 'note'))))\n")
+    src_b = (f"class Order{uid}(StateMachine):\n    new = State(initial=True)\n    paid = State(final=True)\n    pay = new.to(paid)\n"
+             "    def on_pay(self, amount, *, currency='EUR'):\n        self.__dict__.setdefault('seen', []).append((amount, currency))\n")
+    got = {}
+    for tag, src in (("a", src_a), ("b", src_b)):
+        ns = {"State": State, "StateMachine": StateMachine, "__name__": f"shop_{tag}_{uid}"}
+        exec(src, ns)  # noqa: S102
+        sm = ns[f"Order{uid}"]()
+        try:
+            sm.pay(10, currency="USD", note="x")
+            got[tag] = sm.__dict__.get("seen")
+        except TypeError as e:
+            got[tag] = "TypeError: " + str(e)[:60]
+    return {"a": [(10, ["currency", "note"])], "b": [(10, "USD")]}, got
+
+
+SPECIAL = [("same-class-and-method-name-in-two-definitions", same_class_name_case),
+           ("lambdas-in-one-class-body", lambdas_case), ("one-factory-different-keyword-only-names", factory_case),
            ("built-ins-do-not-leak-into-the-events-own-kwargs", leak_case)]
 
 
